@@ -5,11 +5,11 @@ package main
 // The parent (childPool) classifies: answer / child died (crash) / no answer in time (hang).
 
 import (
-	sqlkw "github.com/ajitpratap0/GoSQLX/pkg/sql/keywords"
 	"bufio"
 	"context"
 	"errors"
 	"fmt"
+	sqlkw "github.com/ajitpratap0/GoSQLX/pkg/sql/keywords"
 	"io"
 	"os"
 	"os/exec"
@@ -113,7 +113,7 @@ var entryPoints = map[string]func(in []byte) error{
 		_, err := t.TokenizeContext(context.Background(), in)
 		return err
 	},
-	"parse": func(in []byte) error { _, err := gosqlx.Parse(string(in)); return err },
+	"parse":      func(in []byte) error { _, err := gosqlx.Parse(string(in)); return err },
 	"parsebytes": func(in []byte) error { _, err := gosqlx.ParseBytes(in); return err },
 	"parsectx": func(in []byte) error {
 		_, err := gosqlx.ParseWithContext(context.Background(), string(in))
